@@ -35,6 +35,28 @@ type script struct {
 	destroy []uint32
 	closed  int
 	dotu    func() bool
+	byOp    map[string][]string    // per-operation answers (override main)
+	hook    func(op string, r *g.SrvReq) // called inside the operation before it answers
+}
+
+func (s *script) ans(op string) []string {
+	s.mu.Lock()
+	defer s.mu.Unlock()
+	if a, ok := s.byOp[op]; ok {
+		return a
+	}
+	return s.main
+}
+
+func (s *script) do(op string, r *g.SrvReq) {
+	s.log(op, r)
+	s.mu.Lock()
+	h := s.hook
+	s.mu.Unlock()
+	if h != nil {
+		h(op, r)
+	}
+	s.respond(r, s.ans(op))
 }
 
 func (s *script) log(op string, r *g.SrvReq) {
@@ -101,7 +123,11 @@ func (s *script) respond(r *g.SrvReq, a []string) {
 	case "Rread":
 		r.RespondRread(mustHex(a[1]))
 	case "Rwrite":
-		r.RespondRwrite(u32(a[1]))
+		if a[1] == "=" { // as many bytes as the request carried
+			r.RespondRwrite(uint32(len(r.Tc.Data)))
+		} else {
+			r.RespondRwrite(u32(a[1]))
+		}
 	case "Rclunk":
 		r.RespondRclunk()
 	case "Rremove":
@@ -120,16 +146,16 @@ func (s *script) respond(r *g.SrvReq, a []string) {
 	}
 }
 
-func (s *script) Attach(r *g.SrvReq) { s.log("attach", r); s.respond(r, s.main) }
-func (s *script) Walk(r *g.SrvReq)   { s.log("walk", r); s.respond(r, s.main) }
-func (s *script) Open(r *g.SrvReq)   { s.log("open", r); s.respond(r, s.main) }
-func (s *script) Create(r *g.SrvReq) { s.log("create", r); s.respond(r, s.main) }
-func (s *script) Read(r *g.SrvReq)   { s.log("read", r); s.respond(r, s.main) }
-func (s *script) Write(r *g.SrvReq)  { s.log("write", r); s.respond(r, s.main) }
-func (s *script) Clunk(r *g.SrvReq)  { s.log("clunk", r); s.respond(r, s.main) }
-func (s *script) Remove(r *g.SrvReq) { s.log("remove", r); s.respond(r, s.main) }
-func (s *script) Stat(r *g.SrvReq)   { s.log("stat", r); s.respond(r, s.main) }
-func (s *script) Wstat(r *g.SrvReq)  { s.log("wstat", r); s.respond(r, s.main) }
+func (s *script) Attach(r *g.SrvReq) { s.do("attach", r) }
+func (s *script) Walk(r *g.SrvReq) { s.do("walk", r) }
+func (s *script) Open(r *g.SrvReq) { s.do("open", r) }
+func (s *script) Create(r *g.SrvReq) { s.do("create", r) }
+func (s *script) Read(r *g.SrvReq) { s.do("read", r) }
+func (s *script) Write(r *g.SrvReq) { s.do("write", r) }
+func (s *script) Clunk(r *g.SrvReq) { s.do("clunk", r) }
+func (s *script) Remove(r *g.SrvReq) { s.do("remove", r) }
+func (s *script) Stat(r *g.SrvReq) { s.do("stat", r) }
+func (s *script) Wstat(r *g.SrvReq) { s.do("wstat", r) }
 func (s *script) FidDestroy(f *g.SrvFid) {
 	s.mu.Lock()
 	s.destroy = append(s.destroy, g.VerifFidNo(f))
@@ -212,6 +238,8 @@ func (s scriptAuth) AuthWrite(afid *g.SrvFid, offset uint64, data []byte) (int, 
 	return int(atou(s.main[1], 32)), nil
 }
 
+var sharedLog = g.NewLogger(64) // one logger goroutine for all sessions
+
 // session is one client connection to a real server.
 type session struct {
 	srv  *g.Srv
@@ -222,7 +250,7 @@ type session struct {
 
 func newSession(msize uint32, dotu bool, auth bool, maxpend int) *session {
 	sc := &script{}
-	srv := &g.Srv{Msize: msize, Dotu: dotu, Maxpend: maxpend}
+	srv := &g.Srv{Msize: msize, Dotu: dotu, Maxpend: maxpend, Log: sharedLog}
 	var ops interface{} = sc
 	if auth {
 		ops = scriptAuth{sc}
